@@ -210,11 +210,27 @@ fn byte_tables(t: &mut Tally, r: &mut Rng) {
         let s3 = r.coin();
         check_path(t, r, &lit, s3, "utf8-3-4byte");
     }
-    // all two-character ASCII strings after '%'
+    // all two-character ASCII strings after '%' (16 384 pairs): as the whole path in both modes, and — one mode each,
+    // alternating — behind a prefix inside a segment and in a middle segment after a multi-byte literal
     for a in 0u8..128 {
         for b in 0u8..128 {
             let p = format!("/%{}{}", a as char, b as char);
             check_path(t, r, &p, false, "percent-pair");
+            check_path(t, r, &p, true, "percent-pair");
+            let odd = (a as usize + b as usize) % 2 == 1;
+            let p2 = format!("/x%{}{}y", a as char, b as char);
+            check_path(t, r, &p2, odd, "percent-pair-in-context");
+            let p3 = format!("/é/%{}{}/z", a as char, b as char);
+            check_path(t, r, &p3, !odd, "percent-pair-in-context");
+        }
+    }
+    // one ASCII character and one non-ASCII character after '%', in either position
+    for a in 0u8..128 {
+        for ch in ['é', '€'] {
+            for s3 in [false, true] {
+                check_path(t, r, &format!("/%{}{}", a as char, ch), s3, "percent-pair-non-ascii");
+                check_path(t, r, &format!("/%{}{}", ch, a as char), s3, "percent-pair-non-ascii");
+            }
         }
     }
     for tail in ["/a%", "/a%4", "/a%4/b", "/%", "/%/", "/a/%é", "/%é0", "/a%%", "/%25", "/%2", "/%2/", "/%zz/..", "/../%zz", "/a/%", "/a/b%4", "/%€", "/%a€", "/%zé", "/%😀", "/a%e€b", "/%€€", "/x/%1😀/y", "/%é€"] {
@@ -229,6 +245,94 @@ fn byte_tables(t: &mut Tally, r: &mut Rng) {
     }
     check_path(t, r, "", false, "empty");
     check_path(t, r, "", true, "empty");
+}
+
+/// Long paths that canonicalise successfully: many segments from an error-free alphabet (standard mode: `..` only when
+/// there is something to pop), push-k-then-pop-k shapes, long segments.
+fn long_paths(t: &mut Tally, seed: u64, shard: u64, n: u64) {
+    const OK_ALPHABET: [&str; 12] = ["a", "b1", ".", "%2E", "", "~", "é", "%41", "%2F", "x%20y", "c-d_e", "%e2%82%ac"];
+    for i in 0..n {
+        let mut r = Rng::keyed(seed, "C09", "long", shard, i);
+        let s3 = r.coin();
+        let mut p = String::new();
+        let mut nseg = 0usize;
+        match r.below(4) {
+            0 => {
+                // push k, pop k (and one more now and then: above the root in standard mode)
+                let k = *r.pick(&[16usize, 64, 300, 2000]);
+                for j in 0..k {
+                    p.push_str(&format!("/s{}", j % 10));
+                }
+                let pops = if r.chance(1, 4) {
+                    k + 1
+                } else {
+                    k - r.usize_below(3)
+                };
+                for _ in 0..pops {
+                    p.push_str(*r.pick(&["/..", "/%2e.", "/.%2E", "/%2E%2e"]));
+                }
+                nseg = k + pops;
+            }
+            1 => {
+                // a few very long segments
+                for _ in 0..1 + r.usize_below(4) {
+                    p.push('/');
+                    let len = *r.pick(&[255usize, 256, 300, 1000, 8000]);
+                    while p.len() < len {
+                        p.push_str(*r.pick(&OK_ALPHABET));
+                        if p.ends_with('/') {
+                            p.pop();
+                        }
+                    }
+                    nseg += 1;
+                }
+                p = p.replace("//", "/x");
+            }
+            _ => {
+                // log-uniform number of segments up to ~10 000
+                let target = match r.below(4) {
+                    0 => 12 + r.usize_below(50),
+                    1 => 64 + r.usize_below(300),
+                    2 => 256 + r.usize_below(2000),
+                    _ => 2000 + r.usize_below(8000),
+                };
+                let mut depth = 0usize;
+                for _ in 0..target {
+                    p.push('/');
+                    if !s3 && depth > 0 && r.chance(1, 6) {
+                        p.push_str(*r.pick(&["..", "%2e%2E"]));
+                        depth -= 1;
+                    } else {
+                        let seg = *r.pick(&OK_ALPHABET);
+                        p.push_str(seg);
+                        if !(seg.is_empty() || seg == "." || seg == "%2E") {
+                            depth += 1;
+                        }
+                    }
+                    nseg += 1;
+                }
+            }
+        }
+        if r.coin() {
+            p.push('/');
+        }
+        if p.len() > 60_000 {
+            p.truncate(60_000);
+            while !p.is_char_boundary(p.len()) || p.ends_with('%') || p[..p.len()].rfind('%').map(|k| k + 3 > p.len()).unwrap_or(false) {
+                p.pop();
+            }
+        }
+        let ok_count = |t: &Tally| t.get("agree_ok/long/s3") + t.get("agree_ok/long/std");
+        let before_ok = ok_count(t);
+        check_path(t, &mut r, &p, s3, "long");
+        if ok_count(t) > before_ok && nseg >= 256 {
+            t.count(if s3 {
+                "long_paths_256_plus_segments_ok/s3"
+            } else {
+                "long_paths_256_plus_segments_ok/std"
+            });
+        }
+    }
 }
 
 fn random_paths(t: &mut Tally, seed: u64, shard: u64, n: u64) {
@@ -282,7 +386,7 @@ fn end_to_end(seed: u64, shard: u64, n: u64) -> Tally {
         let o = GenOpts {
             max_pairs: 1,
             max_extra_headers: 1,
-            allow_form: false,
+            allow_form: i % 3 == 0,
             ..Default::default()
         };
         let mut l = gen_logical(&mut r, &cfg, &o);
@@ -303,7 +407,30 @@ fn end_to_end(seed: u64, shard: u64, n: u64) -> Tally {
             r: &mut sr,
             level: 1,
         };
-        let (case, facts) = make_case(&l, &cfg, &mut sp, &Overrides::default(), 0);
+        let (mut case, facts) = make_case(&l, &cfg, &mut sp, &Overrides::default(), 0);
+        // one time in five: a failing shape spliced into the path as sent, at any segment (a bad escape in a middle segment,
+        // a climb above the root that does not start the path) — the whole request must be refused as an invalid path (400)
+        let mut spliced = false;
+        if r.chance(1, 5) {
+            let q = case.wire.uri.iter().position(|c| *c == b'?').unwrap_or(case.wire.uri.len());
+            let start = match case.wire.uri.windows(3).position(|w| w == b"://") {
+                Some(k) => case.wire.uri[k + 3..q].iter().position(|c| *c == b'/').map(|x| x + k + 3),
+                None => Some(0),
+            };
+            if let Some(start) = start {
+                let slashes: Vec<usize> = (start..q).filter(|k| case.wire.uri[*k] == b'/').collect();
+                if !slashes.is_empty() {
+                    let at = *r.pick(&slashes);
+                    let bad: &[u8] = if cfg.s3 {
+                        r.pick_bytes(&[b"/%zz", b"/x%4", b"/%", b"/a%G1b"])
+                    } else {
+                        r.pick_bytes(&[b"/%zz", b"/x%4", b"/%", b"/a%G1b", b"/../../../../../../../../../../..", b"/%2e%2E/%2E./../../../../../../../../.."])
+                    };
+                    case.wire.uri.splice(at..at, bad.iter().copied());
+                    spliced = true;
+                }
+            }
+        }
         let rec = execute(&case);
         t.eval();
         if matches!(rec.outcome, Outcome::NotBuilt(_)) {
@@ -318,6 +445,10 @@ fn end_to_end(seed: u64, shard: u64, n: u64) -> Tally {
                 t.count(&format!("e2e_accepted/{}", if cfg.s3 { "s3" } else { "std" }));
                 t.nontrivial(case.hash());
                 t.sample(4, || J::obj().set("wire_uri", J::s(crate::json::show_bytes(&case.wire.uri))).set("signed_canonical_path", J::s(facts.cpath.clone())).set("s3", J::Bool(cfg.s3)).set("library", J::s("Ok")));
+            }
+            Agreement::Agree if spliced && matches!(j.analysis.verdict, crate::rm::decide::Verdict::Reject { stage: crate::rm::decide::Stage::Path, .. }) => {
+                t.count(&format!("e2e_invalid_path_refused/{}", if cfg.s3 { "s3" } else { "std" }));
+                t.nontrivial(case.hash());
             }
             Agreement::Agree => t.count("e2e_other"),
             Agreement::Silent(w) => t.count(&format!("silent: {}", w)),
@@ -350,6 +481,7 @@ pub fn run(tier: Tier) -> i32 {
             t.add("enumerated_paths_total", total);
         }
         random_paths(&mut t, seed, s, tier.n(8000, 300_000));
+        long_paths(&mut t, seed, s, tier.n(150, 6000));
         t
     });
     let e2e = ctx.par(16, |s| end_to_end(seed, s, tier.n(3000, 100_000)));
@@ -369,6 +501,10 @@ pub fn run(tier: Tier) -> i32 {
     ctx.gate("standard-mode agreements", tally.get("agree_ok/enum/std"), tier.n(1000, 50_000));
     ctx.gate("idempotence relation evaluated", tally.get("idempotent"), tier.n(5000, 500_000));
     ctx.gate("respelling relation evaluated", tally.get("respelling_invariant"), tier.n(5000, 500_000));
+    ctx.gate("paths of ≥ 256 segments canonicalised in agreement, standard mode", tally.get("long_paths_256_plus_segments_ok/std"), tier.n(200, 8000));
+    ctx.gate("paths of ≥ 256 segments canonicalised in agreement, S3 mode", tally.get("long_paths_256_plus_segments_ok/s3"), tier.n(200, 8000));
+    ctx.gate("end-to-end requests with a failing shape spliced into the path refused as invalid path, standard mode", tally.get("e2e_invalid_path_refused/std"), tier.n(300, 5000));
+    ctx.gate("end-to-end requests with a failing shape spliced into the path refused as invalid path, S3 mode", tally.get("e2e_invalid_path_refused/s3"), tier.n(300, 5000));
     ctx.gate("end-to-end accepted, standard mode", tally.get("e2e_accepted/std"), tier.n(2000, 50_000));
     ctx.gate("end-to-end accepted, S3 mode", tally.get("e2e_accepted/s3"), tier.n(2000, 50_000));
     ctx.exhaustive("all 256 byte values as %XX and %xx, all ASCII bytes as literals, all 2-byte UTF-8 sequences", DIRECT);
@@ -376,7 +512,7 @@ pub fn run(tier: Tier) -> i32 {
     ctx.exhaustive(&format!("every path of ≤ {} segments over the 12-symbol alphabet, both modes, with and without trailing slash", max_segs), DIRECT);
     let rep = Report {
         level: "exploration",
-        rule: format!("Direct calls of canonicalize_uri_path (through the crate's own `unstable` feature) under panic capture: byte tables (every byte literal / %XX / %xx), every ASCII pair after '%', truncated escapes, relative paths, every path of ≤ {} segments over {{a . .. %2E %2e%2E %2F '' %zz % + ~ é}} in both modes with and without trailing slash, random paths up to ~10 000 segments; oracles: a decode-then-encode stack-machine reference, idempotence, and invariance under re-spelling (the last two independent of the reference); error kind must be InvalidURIPath/400. End-to-end: reference-signed requests over generated paths must be accepted in both modes. Distinct = distinct (path, mode) pairs on which library and reference agreed.", max_segs),
+        rule: format!("Direct calls of canonicalize_uri_path (through the crate's own `unstable` feature) under panic capture: byte tables (every byte literal / %XX / %xx), every ASCII pair after '%' (as the whole path in both modes, and inside a segment / in a middle segment), pairs with a non-ASCII character, truncated escapes, relative paths, every path of ≤ {} segments over {{a . .. %2E %2e%2E %2F '' %zz % + ~ é}} in both modes with and without trailing slash, random paths up to ~10 000 segments, long paths built to succeed (error-free alphabet, `..` only with something to pop, push-k-pop-k for k up to 2000, segments of 255–8000 bytes); oracles: a decode-then-encode stack-machine reference, idempotence, and invariance under re-spelling (the last two independent of the reference); error kind must be InvalidURIPath/400. End-to-end: reference-signed requests over generated paths must be accepted in both modes (with and without form bodies / folding); one in five gets a failing shape spliced into a random segment of the path as sent and must be refused as an invalid path. Distinct = distinct (path, mode) pairs on which library and reference agreed.", max_segs),
         assumptions: vec![
             "trailing-slash convention of the AWS vectors: kept iff the received path ends in '/' (//example// → /example/, /example/.. → /)".into(),
             "paths are UTF-8 strings as http::Uri delivers them".into(),
